@@ -66,6 +66,7 @@ func c12fHistoryOpt(t *rapid.T, epilogue bool) []c12fStep {
 		return fmt.Sprint(doReq(h, "POST", "/v2/"+rn+"/blobs/uploads/?digest="+dig("sha256", b), b, nil).code)
 	}
 	steps := []c12fStep{}
+	pushedTags, pushedImgs := [][2]string{}, [][2]string{}
 	n := rapid.IntRange(4, 14).Draw(t, "nSteps")
 	for i := 0; i < n; i++ {
 		rn := rapid.SampledFrom(repos).Draw(t, "repo")
@@ -73,7 +74,26 @@ func c12fHistoryOpt(t *rapid.T, epilogue bool) []c12fStep {
 		ii := rapid.IntRange(0, 2).Draw(t, "image")
 		tag := rapid.SampledFrom([]string{"t1", "t2"}).Draw(t, "tag")
 		kind := rapid.SampledFrom([]string{"blobPost", "blobPost", "blobChunked", "blobChunked", "blobPostPut", "mount", "uploadCancel", "imageByTag", "imageByTag", "imageByDigest", "indexPut", "artifactPut",
-			"tagDelete", "manifestDelete", "blobDelete", "collect", "collectAll", "tagList", "manifestGet", "referrers", "blobHead", "blobHead", "restart", "restart", "restart"}).Draw(t, "kind")
+			"tagDelete", "tagDelete", "manifestDelete", "manifestDelete", "blobDelete", "collect", "collectAll", "tagList", "manifestGet", "referrers", "blobHead", "blobHead", "restart", "restart", "restart"}).Draw(t, "kind")
+		// deletes mostly address what an earlier step of the history pushed (a delete of something absent makes no file-system call)
+		switch kind {
+		case "imageByTag":
+			pushedTags = append(pushedTags, [2]string{rn, tag})
+			pushedImgs = append(pushedImgs, [2]string{rn, fmt.Sprint(ii)})
+		case "imageByDigest":
+			pushedImgs = append(pushedImgs, [2]string{rn, fmt.Sprint(ii)})
+		case "tagDelete":
+			if len(pushedTags) > 0 && rapid.IntRange(0, 3).Draw(t, "deleteExisting") > 0 {
+				p := pushedTags[rapid.IntRange(0, len(pushedTags)-1).Draw(t, "which")]
+				rn, tag = p[0], p[1]
+			}
+		case "manifestDelete":
+			if len(pushedImgs) > 0 && rapid.IntRange(0, 3).Draw(t, "deleteExisting") > 0 {
+				p := pushedImgs[rapid.IntRange(0, len(pushedImgs)-1).Draw(t, "which")]
+				rn = p[0]
+				fmt.Sscan(p[1], &ii)
+			}
+		}
 		s := c12fStep{name: fmt.Sprintf("%s %s layer=%d image=%d tag=%s", kind, rn, li, ii, tag), repo: rn}
 		switch kind {
 		case "blobPost":
